@@ -50,6 +50,11 @@ CLAIMS.update({
         _A + " IoInput is proved against the same contract over a ghost reader with <= 4 bytes (bounded; BufReader is std's); Graphemes and the 512-item batch boundary of Stream are not covered.",
         "DESIGN 4/C10",
     ),
+    "C11": (
+        "Memoized::go is proved (Kani/CBMC, loop-free, symbolic input of unbounded length, symbolic entry state, symbolic pre-state of the memo table, contract stub as the memoized parser) against the transparency contract: a first attempt at a position is exactly one run of the parser from the caller's state with the same acceptance, output, consumption, emitted errors and pending error, marked in progress while it runs, recorded iff it failed; a later attempt at that position replays the recorded failure at its recorded position without re-running the parser; a re-entered attempt (the left-recursive step) fails at once without running the parser again, which with the Verus lemma bounding the nesting of distinct keys is why a memoized left-recursive step terminates; other bindings of the table are untouched. Choice of two memoized parsers and the same memoized parser tried twice are proved against the un-memoized contract.",
+        _A + " The memo table is the assumed finite-map contract of /verif/kani/hashmodel.rs (hashbrown itself is out of CBMC's reach; cfg-guarded hook), at most 3 bindings; natively the real hashbrown is used. The key's address component is taken as the library computes it; distinct zero-sized memoized parsers at one address share a key - recorded finding. That re-running a parser at the same position fails in the same way (purity, C13) is assumed by memoization itself. Termination of the whole parse is not decided, only the bound on memoized nesting.",
+        "DESIGN 4/C11, 9.6",
+    ),
     "C12": (
         "Recursive (declare/define and recursive()) is proved to forward to its definition from the caller's state (so a recursive grammar equals its unrolling by induction over a terminating parse); one level of real self-reference is checked bounded; mutually recursive declarations with a handle cloned before definition and the original dropped still reach the definition; a second definition is refused and the first stays in force.",
         _A + " define() is entered through a cfg-guarded hook under Kani (its #[track_caller] location lookup is not translatable); stack depth / stacker is not decided.",
